@@ -6,7 +6,7 @@ import Mimium.Proofs.OccursSeq
 import Mimium.Proofs.TypeRecDetect
 import Mimium.Gen.TypingFacts
 import Mimium.Gen.ParentWriters
-import Mimium.Proofs.UnifyAcyclic
+import Mimium.Proofs.UnifyTermTop
 /-!
 # C04 — front end and compile entry points are total on arbitrary text
 
@@ -658,5 +658,32 @@ theorem C04_unify_sequence_acyclic (g f : Nat) (reqs : List (Bool × Unify.Ty ×
         exact ih σ1 σ (go_good g f k σ0 a b h0 σ1 r hc).1 h
   have hac := gen reqs [] σ Occurs.acyclic_nil h
   exact ⟨hac, fun v t fuel hf => Occurs.occ_total_bound (absS σ) hac false v (abs t) fuel hf⟩
+
+open Mimium.Unify in
+/-- **Termination of the WHOLE of unification, with an explicit bound.**  On every acyclic store, for ALL types, `unify_types`
+(`args = false`) / `unify_types_args` (`args = true`) return as soon as the fuel for `get_root` / `occur_check` reaches
+`fuelG σ t1 t2` and the fuel for the nesting of unification calls reaches `fuelF σ t1 t2` — with `s` = constructors of the two types
+and of all parents (as `occur_check` sees them), `n = σ.length + s` (no reachable store has more entries), `h = s + n·s` (no type
+gets higher in any reachable store): `fuelG = h + n + 1`, `fuelF = 4 (2h² + 2h) + 4`.  (The nesting is NOT bounded by the sum of
+the two heights: the record arm unifies a defaulted field with itself, so the measure is (max, sum) of the heights,
+lexicographically, times the four re-dispatches of `unify_types_args`.) -/
+theorem C04_unify_terminates (σ : Unify.Store) (t1 t2 : Unify.Ty) (hσ : Occurs.Acyclic (absS σ)) (args : Bool) (g f : Nat)
+    (hg : fuelG σ t1 t2 ≤ g) (hf : fuelF σ t1 t2 ≤ f) : ∃ σ' r, go g f args σ t1 t2 = some (σ', r) :=
+  go_terminates σ t1 t2 hσ args g f hg hf
+
+open Mimium.Unify in
+/-- … and every request of every SEQUENCE of requests from the empty store returns with the fuel of the bound taken at its own
+store (what `drv_c03u` runs) -/
+theorem C04_unify_sequence_terminates (g f : Nat) (reqs : List (Bool × Unify.Ty × Unify.Ty)) (σ : Unify.Store)
+    (h : runSeq g f [] reqs = some σ) (k : Bool) (a b : Unify.Ty) :
+    ∃ σ' r, go (fuelG σ a b) (fuelF σ a b) k σ a b = some (σ', r) :=
+  go_terminates σ a b (C04_unify_sequence_acyclic g f reqs σ h).1 k _ _ (Nat.le_refl _) (Nat.le_refl _)
+
+/-- non-vacuity: the bound on a request with a binding and a one-sided descent; and fuel 1 is not enough -/
+example : Unify.fuelG [] (.fn (.var 0) (.prim .num)) (.fn (.tuple [.prim .num]) (.var 1)) = 81 ∧
+    Unify.fuelF [] (.fn (.var 0) (.prim .num)) (.fn (.tuple [.prim .num]) (.var 1)) = 42052 ∧
+    Unify.verdict (Unify.go 81 42052 false [] (.fn (.var 0) (.prim .num)) (.fn (.tuple [.prim .num]) (.var 1))) = some (.ok .ident) ∧
+    Unify.verdict (Unify.go 81 1 false [] (.fn (.var 0) (.prim .num)) (.fn (.tuple [.prim .num]) (.var 1))) = none := by
+  decide +kernel
 
 end Mimium.Props.C04
